@@ -22,6 +22,24 @@ def fam_forest(maxops, ncomp=4):
     }
 
 
+def fam_detach_after_leave(extra):
+    """c (with child d) dispatches as a root, is registered under r, d leaves, c is unregistered again and
+    dispatches as a root: the long-unregistered d must receive nothing from its former tree"""
+    return {
+        'comps': {'1': {'chan': 'a'}, '2': {'chan': 'a'}, '3': {'chan': 'a'}},
+        'handlers': {
+            '1': _h(1, ['x0'], 2, {'x0': [['ret', 1]]}),
+            '2': _h(2, ['x0'], 1, {'x0': [['ret', 2]]}),
+            '3': _h(3, ['x0'], 0, {'x0': [['ret', 3]]}),
+        },
+        'ext': [{'name': 'x0'}],
+        'ops': ['fire', 'flush', 'reg', 'unreg'],
+        'pre': [['reg', 3, 2], ['fire', 2, 1], ['flush', 2], ['reg', 2, 1], ['flush', 1], ['unreg', 3], ['flush', 1], ['flush', 1],
+                ['unreg', 2], ['flush', 1], ['flush', 1]],
+        'maxops': 11 + extra, 'firers': [2], 'flushers': [1, 2], 'dyn': [],
+    }
+
+
 RANDOM_OPTS = {
     'ncomp': 5, 'shapes': ['plain', 'class'], 'nhandlers': (3, 8), 'prios': [-1, 0, 1, 2],
     'kinds': ['named', 'named', 'catchall', 'global'], 'nnames': 2,
@@ -63,6 +81,7 @@ def run(tier, replay=None):
             {'name': 'forest3', 'programs': [fam_forest(4 if quick else 5, 3)], 'hist_programs': [fam_forest(3 if quick else 4, 3)],
              'hist_cap_quick': 1000},
             {'name': 'forest4', 'programs': [fam_forest(3 if quick else 4, 4)], 'hist_programs': []},
+            {'name': 'detach-after-leave', 'programs': [fam_detach_after_leave(2)], 'hist_programs': [fam_detach_after_leave(2)]},
         ],
         'teeth': [],
         'random': gen_random, 'witness': witness, 'mutators': mutate,
